@@ -74,6 +74,13 @@ def c29Step (_ : Unit) (op impl : String) : Unit × String × String :=
     match recOp fs with
     | some out => ((), out, if impl == out then "ok" else "viol:recovery-differs-from-model")
     | none => ((), "bad-op", "ok")
+  | "drain" :: fs =>
+    match fs.mapM String.toNat? with
+    | some arr =>
+      if arr.isEmpty || arr.any (· > 1048576) then ((), "bad-op", "ok") else
+      let out := "|".intercalate ((Drain.run Drain.init arr).map ints)
+      ((), out, if impl == out then "ok" else "viol:completion-drain-differs-from-model")
+    | none => ((), "bad-op", "ok")
   | "traffic" :: fs =>
     if !trafficOk fs then ((), "bad-op", "ok") else
     if impl == "bad-op" then ((), "-", "ok") else
